@@ -84,8 +84,9 @@ def make_dataset(model, rng):
     for col in df.columns:
         if col in (idcol, "DV") or not np.issubdtype(df[col].dtype, np.number):
             continue
-        if col in ("WGT", "APGR", "TIME"):
-            df[col] = [float(f"{float(x) * rng.choice([0.5, 1.5, 2.0]) + rng.choice([0, 0.25]):.4g}") for x in df[col]]
+        if set(src[col].unique()) <= {0, 1} or col == "AMT":
+            continue        # flags / occasions / doses keep their values
+        df[col] = [float(f"{float(x) * rng.choice([0.5, 1.5, 2.0]) + rng.choice([0, 0.25]):.4g}") for x in df[col]]
     return df
 
 
@@ -277,12 +278,13 @@ def run(pm, Expr, model, w, drv, seed, tags, dv="Y", ncombos=2, what=""):
             for s in model.statements:
                 if U.is_assignment(s) and str(s.symbol) != dv:
                     try:
-                        full = exprconv.to_sympy(model.statements.before_odes.full_expression(s.symbol))
+                        # the symbols pharmpy (symengine) sees: its sympy image may have folded an eta branch away
+                        full_syms = {str(x) for x in model.statements.before_odes.full_expression(s.symbol).free_symbols}
                     except Exception as e:
                         if type(e).__name__ == "CaseTimeout":
                             raise
                         continue
-                    if not (full.free_symbols & rvs):
+                    if not (full_syms & {str(x) for x in rvs}):
                         targets.append(str(s.symbol))
             targets = targets[:1] + targets[-1:] if len(targets) > 1 else targets
             erows = sorted(rng.sample(range(len(model.dataset)), 2))
